@@ -88,6 +88,19 @@ func resumeSchedules(w *core.Worker, r *core.Rand, c *Case, op view.MsgOpt, s1Ma
 			run(s.cuts, "S4-random")
 		}
 	}
+	// end-of-input flag given only on the last call
+	if c.P.EndInput(c.Cfg) {
+		s.cuts = CutsRandom(s.cuts, r, c.Start, n, r.Range(1, 4))
+		if CheckLateEnd(w, c, s.cuts, op) {
+			w.Inc("runs/late-end-flag")
+		}
+		if n-c.Start <= 64 {
+			for cut := c.Start; cut < n; cut++ {
+				s.cuts = CutsSingle(s.cuts, cut, n)
+				CheckLateEnd(w, c, s.cuts, op)
+			}
+		}
+	}
 	// S5: empty growth (same prefix offered twice)
 	s.cuts = CutsRandom(s.cuts, r, c.Start, n, r.Range(1, 6))
 	dup := append([]int(nil), s.cuts...)
@@ -192,6 +205,31 @@ func RunC01(r *core.Run) {
 			w.Inc("nontrivial_cases")
 		}
 	})
+	// many elements: counts around 8-bit / table-size boundaries (a single header with hundreds of
+	// values or parameters, hundreds of headers, hundreds of URI parameters), cut inside them
+	r.Stage("many-elements", r.Pick(3000, 60000), func(w *core.Worker, idx int64) {
+		rr := core.NewRand(r.Seed, 0xC01, 7, uint64(idx))
+		b := manyElementsMsg(rr)
+		if len(b) > 65535 {
+			return
+		}
+		var cuts []int
+		for i := rr.Range(1, 6); i > 0; i-- {
+			cuts = append(cuts, rr.Intn(len(b)+1))
+		}
+		cuts = append(cuts, len(b))
+		sortInts(cuts)
+		c := &Case{P: P, Cfg: msgCfg(rr, []int{8, 300, 700}[rr.Intn(3)], []int{2, 300, 700}[rr.Intn(3)]), Buf: b, Start: 0}
+		c.Cfg.MsgFlags &^= 4
+		if w.WantSample("many-elements") {
+			w.Sample("many-elements", map[string]any{"msg_head": core.Esc(b[:minInt(len(b), 160)]), "len": len(b), "cuts": cuts})
+		}
+		res := CheckResume(w, c, cuts, op)
+		if res.Suspended > 0 && res.Definite {
+			w.Nontrivial(core.HashBytes(b[:minInt(len(b), 400)]) ^ uint64(len(b))<<32)
+			w.Inc("nontrivial_cases")
+		}
+	})
 	// enumerated short-message family: every body over the branch alphabet under
 	// every typed header, inside a complete message, S1 + S2 on all of them
 	L := int(r.Pick(3, 4))
@@ -250,4 +288,69 @@ func sortInts(a []int) {
 			a[j], a[j-1] = a[j-1], a[j]
 		}
 	}
+}
+
+// manyCounts are element counts around the places where an 8-bit counter, a table of 256 or a
+// doubling array would misbehave.
+var manyCounts = []int{100, 127, 128, 129, 200, 254, 255, 256, 257, 258, 300, 511, 512, 513, 700, 1023, 1024, 1025}
+
+// manyElementsMsg builds a well-formed request in which ONE construct is repeated many times.
+func manyElementsMsg(rr *core.Rand) []byte {
+	k := manyCounts[rr.Intn(len(manyCounts))]
+	b := []byte("INVITE sip:a@b SIP/2.0\r\nFrom: <sip:a@b>;tag=1\r\nTo: <sip:c@d>\r\nCall-ID: x\r\nCSeq: 1 INVITE\r\n")
+	val := func(i int) string {
+		switch rr.Intn(4) {
+		case 0:
+			return fmt.Sprintf("<sip:u%d@h>;expires=%d", i, 10+i)
+		case 1:
+			return fmt.Sprintf("sip:u%d@h", i)
+		case 2:
+			return fmt.Sprintf("\"n%d\" <sip:h>;q=0.%d", i, i%10)
+		}
+		return "<a>"
+	}
+	sep := []string{",", ", ", " ,", ",\r\n "}[rr.Intn(4)]
+	switch rr.Intn(6) {
+	case 0, 1: // one Contact / PAI / Route header with k values
+		b = append(b, []string{"Contact: ", "m:", "P-Asserted-Identity: ", "Route: "}[rr.Intn(4)]...)
+		for i := 0; i < k; i++ {
+			if i > 0 {
+				b = append(b, sep...)
+			}
+			b = append(b, val(i)...)
+		}
+		b = append(b, "\r\n"...)
+	case 2: // k Contact headers of 1-2 values
+		for i := 0; i < k; i++ {
+			b = append(b, "m:"...)
+			b = append(b, val(i)...)
+			if rr.Intn(4) == 0 {
+				b = append(b, ","...)
+				b = append(b, val(i+1000)...)
+			}
+			b = append(b, "\r\n"...)
+		}
+	case 3: // k other headers
+		for i := 0; i < k; i++ {
+			b = append(b, fmt.Sprintf("X%d: v\r\n", i)...)
+		}
+	case 4: // one value with k header parameters
+		b = append(b, "Contact: <sip:a@b>"...)
+		for i := 0; i < k; i++ {
+			b = append(b, fmt.Sprintf(";p%d=%d", i, i)...)
+		}
+		b = append(b, ";expires=7\r\n"...)
+	case 5: // a URI with k parameters / headers
+		b = append(b, "Contact: <sip:a@b"...)
+		for i := 0; i < k; i++ {
+			b = append(b, fmt.Sprintf(";p%d", i)...)
+		}
+		b = append(b, "?"...)
+		for i := 0; i < k/2; i++ {
+			b = append(b, fmt.Sprintf("h%d=%d&", i, i)...)
+		}
+		b = append(b, "z=1>;expires=9\r\n"...)
+	}
+	b = append(b, "Content-Length: 0\r\n\r\n"...)
+	return b
 }
